@@ -3,6 +3,7 @@ use vkit::report::{Args, Report};
 
 mod c02;
 mod c03;
+mod c04;
 mod c05;
 mod c06;
 mod c07;
@@ -29,6 +30,7 @@ fn main() {
         "smoke" => smoke::run(&args, &mut rep),
         "c02" => c02::run(&args, &mut rep),
         "c03" => c03::run(&args, &mut rep),
+        "c04" => c04::run(&args, &mut rep),
         "c05" => c05::run(&args, &mut rep),
         "c06" => c06::run(&args, &mut rep),
         "c07" => c07::run(&args, &mut rep),
